@@ -12,6 +12,9 @@ SumSeq(s) == IF s = <<>> THEN 0 ELSE Head(s) + SumSeq(Tail(s))
 RECURSIVE SumOver(_, _)
 SumOver(S, f) == IF S = {} THEN 0 ELSE LET x == CHOOSE x \in S : TRUE IN f[x] + SumOver(S \ {x}, f)
 
+\* a float counter can be incremented by +Inf (sentinel PInf, as in LinGauge): sums saturate there
+PInf == 1000000000
+Sat(x) == IF x >= PInf THEN PInf ELSE x
 Amount(c) == CASE c.k = "inc" -> 1 [] c.k = "incby" -> c.v [] c.k = "lflush" -> SumSeq(c.vs) [] OTHER -> 0
 Incs(cs)   == {i \in DOMAIN cs : cs[i].k \in {"inc", "incby", "lflush"} /\ Amount(cs[i]) > 0}
 Reads(cs)  == {i \in DOMAIN cs : cs[i].k = "get"}
@@ -23,8 +26,8 @@ SetOf(cs, n) == {i \in Incs(cs) : HasBit(n, Amount(cs[i]))}
 \* a value read by a call with interval [inv, ret] lies between "everything completed before it began" and
 \* "everything started before it returned" (holds for any amounts) ...
 Bounded(cs, n, inv, ret) ==
-  /\ SumOver({i \in Incs(cs) : cs[i].ret < inv}, Amt(cs)) <= n
-  /\ n <= SumOver({i \in Incs(cs) : cs[i].inv < ret}, Amt(cs))
+  /\ Sat(SumOver({i \in Incs(cs) : cs[i].ret < inv}, Amt(cs))) <= n
+  /\ n <= Sat(SumOver({i \in Incs(cs) : cs[i].inv < ret}, Amt(cs)))
 \* ... and, when the amounts are distinct powers of two, is exactly the sum of such a set S
 Pow2 == {1, 2, 4, 8, 16, 32, 64, 128, 256, 512, 1024, 2048, 4096}
 NamesItsSet(cs) == /\ \A i \in Incs(cs) : Amount(cs[i]) \in Pow2
@@ -41,7 +44,7 @@ Intervened(cs, r1, r2) == \E z \in Resets(cs) : ~(cs[z].ret < cs[r1].inv) /\ ~(c
 
 HistoryOK(h) ==
   LET cs == h.calls IN
-  /\ Resets(cs) = {} => /\ h.final.get = SumOver(Incs(cs), Amt(cs))                       \* nothing lost, nothing twice
+  /\ Resets(cs) = {} => /\ h.final.get = Sat(SumOver(Incs(cs), Amt(cs)))                     \* nothing lost, nothing twice
                         /\ \A r \in Reads(cs) : Explained(cs, cs[r].res, cs[r].inv, cs[r].ret)
   /\ \A r1, r2 \in Reads(cs) : (cs[r1].ret < cs[r2].inv /\ ~Intervened(cs, r1, r2)) => cs[r1].res <= cs[r2].res
 
